@@ -29,11 +29,21 @@ SPEC["C07"] = {
      (d) the table the gates consult covers the frozen RFC list of extension-owned commands, tags
          and match types (C07_tables_cover_frozen, a vm_compute obligation over the generated
          tables), and has no blind spot (C07_no_blind_spot).
-   Removal direction ("rejected with extension '<x>' not loaded, x first in script order"): the
-   three gate examples below are computed on the model; the general statement needs
-   C01_complete and is exercised on the implementation by the check (all (script, extension)
-   pairs of the generator).""",
-    "imports": SIEVE_IMPORTS + "From SV Require Import GateFacts.\n",
+   Removal direction ("rejected with extension '<x>' not loaded, x first in script order"), sieve/LessLoaded.v
+   and sieve/RemovalFacts.v: two runs of the parser on the same tokens, the second with a subset of the loaded
+   extensions, are in lockstep -- same stack, expectations, brackets, results with the same command names --
+   until the first transition that consults an extension the second run lacks, where the second run stops with
+   "extension 'x' not loaded" (C07_step_simulation: every transition, for every state and token, by case analysis
+   over the whole machine; the stale string-list buffer, which differs after `require` commands of different
+   lengths, is part of the relation).  Hence for two scripts that begin with commands of the grammar -- the
+   `require` commands, listing different extensions -- and continue with the same tokens: if the full one is
+   accepted, the reduced one is either accepted with the same commands or rejected with that message at a token
+   of the common part, for an extension the full run has loaded there and the reduced run has not
+   (C07_removal_rejects); together with C07_accept (an accepted tree never needs an extension that is not
+   loaded) a script whose tree needs the removed extension cannot take the first alternative.  Three gate
+   examples and one removal example are computed on the model; all (script, extension) pairs of the generator
+   are run on the implementation.""",
+    "imports": SIEVE_IMPORTS + "From SV Require Import GateFacts TotalFacts CompleteFacts CompleteTree LessLoaded RemovalFacts.\n",
     "theorems": [
         ("C07_only_require_loads", "GateFacts.process_loaded_true",
          "one parser step changes the loaded set only by completing a require with ';' (loaded_step)"),
@@ -50,6 +60,11 @@ SPEC["C07"] = {
         ("C07_accept", "GateFacts.gate_accept",
          "every accepted input whatsoever: all extensions needed anywhere in the tree are loaded"),
         ("C07_accept_generated_tables", "GateFacts.gate_accept_gen", "... instantiated with the tables generated from /repo"),
+        ("C07_step_simulation", "LessLoaded.process_sim", "one transition with fewer extensions loaded: the same outcome in the related state, or extension-not-loaded for an extension the full run has"),
+        ("C07_run_simulation", "LessLoaded.run_less", "whole runs over the same tokens: accepted with the same command names, or rejected at the first token that consults a missing extension"),
+        ("C07_removal_dichotomy", "LessLoaded.removal_dichotomy", "two scripts whose prefixes leave the parser in related states and whose remainders are the same tokens"),
+        ("C07_removal_rejects", "RemovalFacts.removal_rejects", "two scripts that begin with commands of the grammar (the require commands) loading a subset and continue with the same tokens"),
+        ("C07_removal_example", "RemovalFacts.ex_removal", "computed on the tables generated from /repo: `copy` removed from the require, rejected at the tag :copy"),
         ("raw", """(* obligations over the generated tables, re-checked on every run *)
 Theorem C07_tables_wf : wf_tables gen_tables = true.
 Proof. vm_compute. reflexivity. Qed.
